@@ -11,6 +11,8 @@ package aaa
 //   R,<i>,<ifx>            restored event
 //   X,<i>,<snap>           lifecycle event, state released
 //   T,<bucket>,<failmask>,<snap>   ProcessAccountingBucket(bucket); sessions in failmask get an error from UpdateAccounting
+//   H,S / H,-              from now on StartAccounting calls are delayed inside the provider fake (do not reach the
+//                          backend) / are no longer delayed;  U  lets the delayed calls through, oldest first
 //   B                      restart: new component over the same opdb, loadAcctSessions
 //   P,<0|1>                pruneOrphanedAcctEntries(now [+10 min])
 //   C/<snap>/<m>/<m>...    the notifications m (A,i,ifx  R,i,ifx  X,i  T,bucket,mask) are delivered CONCURRENTLY, one
@@ -60,10 +62,25 @@ type vf09Call struct {
 	seq            int
 }
 
+type vf09Held struct {
+	sid     string
+	release chan struct{}
+}
+
 type vf09Provider struct {
 	mu    sync.Mutex
 	calls []vf09Call
 	fail  map[string]bool
+	// asynchronous delivery: while holdStart is set a StartAccounting call does not reach the backend (is not
+	// recorded) until the harness lets it through - the goroutine that carries it is simply slow
+	holdStart bool
+	held      []*vf09Held
+}
+
+func (p *vf09Provider) nHeld() int {
+	p.mu.Lock()
+	defer p.mu.Unlock()
+	return len(p.held)
 }
 
 func (*vf09Provider) Info() provider.Info { return provider.Info{} }
@@ -76,6 +93,15 @@ func (p *vf09Provider) rec(kind byte, s *auth.Session, ok bool) {
 	p.calls = append(p.calls, vf09Call{kind, s.SessionID, s.RxBytes, s.TxBytes, s.RxPackets, s.TxPackets, ok, len(p.calls)})
 }
 func (p *vf09Provider) StartAccounting(_ context.Context, s *auth.Session) error {
+	p.mu.Lock()
+	if p.holdStart {
+		h := &vf09Held{sid: s.SessionID, release: make(chan struct{})}
+		p.held = append(p.held, h)
+		p.mu.Unlock()
+		<-h.release
+	} else {
+		p.mu.Unlock()
+	}
 	p.rec('S', s, true)
 	return nil
 }
@@ -317,6 +343,11 @@ type vf09Mon struct {
 	inside, armed  bool
 	prev           [4]uint64
 	brk, stp, mono bool
+	// snt: every Interim / Stop >= the last value SENT in the bracket (acknowledged or not)
+	// ord: the arrival stream is a prefix of (Start Interim* Stop)*  (meaningful for a never-restored session)
+	prevSent [4]uint64
+	opened   bool
+	snt, ord bool
 }
 
 func (m *vf09Mon) event(kind byte, calls []vf09Call) {
@@ -324,17 +355,31 @@ func (m *vf09Mon) event(kind byte, calls []vf09Call) {
 	for _, c := range calls {
 		v := [4]uint64{c.rx, c.tx, c.rp, c.tp}
 		ge := v[0] >= m.prev[0] && v[1] >= m.prev[1] && v[2] >= m.prev[2] && v[3] >= m.prev[3]
+		geS := v[0] >= m.prevSent[0] && v[1] >= m.prevSent[1] && v[2] >= m.prevSent[2] && v[3] >= m.prevSent[3]
 		switch c.kind {
 		case 'S':
 			if m.inside {
 				m.brk = false
 			}
+			if m.opened {
+				m.ord = false
+			}
+			m.opened = true
 			m.inside = true
 			m.prev = [4]uint64{}
+			m.prevSent = [4]uint64{}
 		case 'I':
 			if !ge {
 				m.mono = false
 			}
+			if !geS {
+				m.snt = false
+			}
+			if !m.opened {
+				m.ord = false
+			}
+			m.opened = true
+			m.prevSent = v
 			if c.ok {
 				m.prev = v
 			}
@@ -343,8 +388,16 @@ func (m *vf09Mon) event(kind byte, calls []vf09Call) {
 			if !ge {
 				m.mono = false
 			}
+			if !geS {
+				m.snt = false
+			}
+			if !m.opened {
+				m.ord = false
+			}
+			m.opened = false
 			m.inside = false
 			m.prev = [4]uint64{}
+			m.prevSent = [4]uint64{}
 		}
 	}
 	switch kind {
@@ -373,6 +426,8 @@ type vf09World struct {
 	c     *Component
 	sess  []vf09Sess
 	bases []*component.Base
+	idx   map[string]int
+	g0    int
 }
 
 func (w *vf09World) newComponent() {
@@ -406,10 +461,13 @@ func (w *vf09World) payload(i int, ifx, hfx uint32, st models.SessionState) mode
 }
 
 // quiesce waits until every goroutine spawned by the last operation has finished.
-func vf09Quiesce(g0 int) bool {
+func vf09Quiesce(g0 int) bool { return vf09QuiesceF(func() int { return g0 }) }
+
+// vf09QuiesceF: the target may move while waiting (a delayed call registers itself in the provider fake)
+func vf09QuiesceF(target func() int) bool {
 	deadline := time.Now().Add(5 * time.Second)
 	for n := 0; ; n++ {
-		if runtime.NumGoroutine() <= g0 {
+		if runtime.NumGoroutine() <= target() {
 			return true
 		}
 		if n < 200 {
@@ -498,6 +556,13 @@ func vf09RunCase(line string, g0 int) (res string) {
 			}
 		}
 		if w != nil {
+			w.ap.mu.Lock()
+			for _, h := range w.ap.held {
+				close(h.release)
+			}
+			w.ap.held, w.ap.holdStart = nil, false
+			w.ap.mu.Unlock()
+			vf09Quiesce(g0)
 			for _, b := range w.bases {
 				b.StopContext()
 			}
@@ -532,11 +597,12 @@ func vf09RunCase(line string, g0 int) (res string) {
 		w.sess = append(w.sess, vf09Sess{id: p[0], bucket: b, typ: typ, mac: net.HardwareAddr{2, 0, 0, 0, 0, byte(i + 1)}})
 		idx[p[0]] = i
 	}
+	w.idx, w.g0 = idx, g0
 	w.newComponent()
 	var groups []string
 	mons := make([]vf09Mon, k)
 	for i := range mons {
-		mons[i] = vf09Mon{brk: true, stp: true, mono: true}
+		mons[i] = vf09Mon{brk: true, stp: true, mono: true, snt: true, ord: true}
 	}
 	ops := f[2+k:]
 	racy := false
@@ -620,7 +686,7 @@ func vf09RunCase(line string, g0 int) (res string) {
 		} else if e := w.exec(members[0]); e != "" {
 			return e
 		}
-		if !vf09Quiesce(g0) {
+		if !vf09QuiesceF(func() int { return g0 + w.ap.nHeld() }) {
 			return "hang after " + op
 		}
 		// Everything the component spawned has finished, but the race detector only knows that through a
@@ -765,7 +831,7 @@ func vf09RunCase(line string, g0 int) (res string) {
 		return "0"
 	}
 	for j := range mons {
-		vs = append(vs, fmt.Sprintf("v%d=%s%s%s", j, bit(mons[j].brk), bit(mons[j].stp), bit(mons[j].mono)))
+		vs = append(vs, fmt.Sprintf("v%d=%s%s%s%s%s", j, bit(mons[j].brk), bit(mons[j].stp), bit(mons[j].mono), bit(mons[j].snt), bit(mons[j].ord)))
 	}
 	d := "racy"
 	if !racy {
@@ -803,10 +869,12 @@ func (w *vf09World) valid(a []string) bool {
 		_, ok1 := num(a[1])
 		_, ok2 := num(a[2])
 		return ok1 && ok2
-	case "B":
+	case "B", "U":
 		return len(a) == 1
 	case "P":
 		return len(a) == 2
+	case "H":
+		return len(a) == 2 && (a[1] == "S" || a[1] == "-")
 	}
 	return false
 }
@@ -870,6 +938,23 @@ func (w *vf09World) exec(a []string) string {
 			now = now.Add(2 * pruneAcctOrphansAfter)
 		}
 		w.c.pruneOrphanedAcctEntries(now)
+	case "H":
+		w.ap.mu.Lock()
+		w.ap.holdStart = a[1] == "S"
+		w.ap.mu.Unlock()
+	case "U":
+		// let the delayed calls through, session by session, oldest first, one at a time
+		w.ap.mu.Lock()
+		hs := w.ap.held
+		w.ap.held = nil
+		w.ap.mu.Unlock()
+		sort.SliceStable(hs, func(x, y int) bool { return w.idx[hs[x].sid] < w.idx[hs[y].sid] })
+		for i, h := range hs {
+			close(h.release)
+			if !vf09Quiesce(w.g0 + len(hs) - 1 - i) {
+				return "hang releasing a delayed Start"
+			}
+		}
 	}
 	return ""
 }
